@@ -153,13 +153,30 @@ func Canonical(cur []byte, ok func([]byte) bool) []byte {
 		cur = cand
 	}
 	for i := range cur {
-		if cur[i] == '\t' || cur[i] == '\r' {
+		if cur[i] == '\t' || cur[i] == '\r' || cur[i] == '\n' {
 			old := cur[i]
 			cur[i] = ' '
 			if !ok(cur) {
 				cur[i] = old
+				if old == '\n' { // a newline that stands for a semicolon
+					cur[i] = ';'
+					if !ok(cur) {
+						cur[i] = old
+					}
+				}
 			}
 		}
+	}
+	// blanks that became removable
+	for i := 0; i < len(cur); {
+		if cur[i] == ' ' {
+			cand := append(append([]byte(nil), cur[:i]...), cur[i+1:]...)
+			if ok(cand) {
+				cur = cand
+				continue
+			}
+		}
+		i++
 	}
 	// multi-byte characters → 'é', '世' or '😀' (the first that keeps failing; same width last)
 	isCanon := func(r rune) bool { return r == 'é' || r == '世' || r == '😀' }
